@@ -336,6 +336,17 @@ where
             tracked_struct_ids.shrink_to_fit();
         }
 
+        #[cfg(salsa_rs_salsa_verif)]
+        if memo.header.may_be_provisional() {
+            let iteration = memo.header.revisions.iteration();
+            crate::verif_conc::emit(crate::verif_conc::Ev::Stamp {
+                verified_at: memo.header.verified_at.load().as_usize(),
+                count: iteration.cancellation_count(),
+                iteration: iteration.iteration(),
+                has_value: memo.value.is_some(),
+            });
+        }
+
         // We convert to a `NonNull` here as soon as possible because we are going to alias
         // into the `Box`, which is a `noalias` type.
         // FIXME: Use `Box::into_non_null` once stable
